@@ -30,6 +30,7 @@ func TestReplay_Front(t *testing.T) {
 	frontReplay("TestProp_C01_StoreWiring", swRun("C01"))
 	frontReplay("TestProp_C12_StoreWiring", swRun("C12"))
 	frontReplay("TestProp_C18_GlobalReload", runC18G)
+	frontReplay("TestProp_C18_BackpressureReload", runC18BP)
 	frontReplay("TestProp_C18_RateReload", runC18R)
 	frontReplay("TestProp_C15_PolicyReload", runC18G)
 	frontReplay("TestProp_C04_TransportParity", tpRun("C04"))
